@@ -339,6 +339,14 @@ _COUPLINGS = ("Gamma", "gamma", "beta")
 
 
 def _indexed_value(atom, par):
+    try:
+        return _indexed_value_unchecked(atom, par)
+    except IndexError:
+        msg = f"indexed symbol {atom} lies outside the configured numbers of poles / channels"
+        raise LeftoverSymbols(msg) from None
+
+
+def _indexed_value_unchecked(atom, par):
     name = atom.base.name if hasattr(atom.base, "name") else str(atom.base)
     idx = [int(i) for i in atom.indices]
     if name == "m":
